@@ -15,9 +15,21 @@ prop("C08", True, "C",
      'Every pair of the stated finite product (2.3M quick, 87M thorough incl. deep invariance checks) is executed; area, range, symmetry, identity, absent-iff-disjoint, rigid-motion invariance and closed-form agreement are asserted with decisions only outside a 1e-6 margin. Right level: a universally quantified statement about a pure function of two boxes.',
      "Trusted: engine/src/geom.rs reference clipper (computed relative to the first box's centre). Boxes off the lattice / menu are not covered.",
      "7/C08")
-prop("C09", False, "A+B", "", "", NB, "7/C09")
-prop("C10", False, "B", "", "", NB, "7/C10")
-prop("C11", False, "A", "", "", NB, "7/C11")
+prop("C09", True, "A+B",
+     'explicit-state breadth-first search over store operation sequences (55-symbol alphabet, ids {1,2,3}, classes {0,1}, shard counts 1..5) with exact state de-duplication, every transition executed on the real TrackStore in lock-step with a BTreeMap reference model; plus exhaustive schedule exploration of the non-blocking merge',
+     'All operation sequences up to depth 3 (quick) / 4 (thorough) from every reachable distinct state are executed on the implementation and compared with the model on return value, notifications, shard statistics and the contents of every shard; the non-blocking merge is run under every command-level schedule and its observations must be explained by one linearisation point.',
+     'Trusted: the reference model (engine/src/props/tmodel.rs, c09.rs) and the shuttle facade (hooks H1/H2). Sequential part runs under the deterministic default schedule. Histories deeper than the bound are not covered.',
+     "7/C09")
+prop("C10", True, "B",
+     'stateless exhaustive exploration of all thread interleavings at command granularity (plus a fine tier with one preemption at every synchronisation operation) of the real store workers and the caller under a controlled scheduler (shuttle runtime, own DFS explorer with prefix replay), result multiset compared with a reference cartesian product',
+     'Every schedule of every scenario (store contents x candidate batch x only_baked x shards 1..2 quick / 1..3 thorough) is executed on the real code; the oracle demands the reference multiset, the error count and an unchanged store in every one, and counts distinct arrival orders as vacuity guard.',
+     "Trusted: shuttle facade and channel shim (src/verif.rs), schedule-point placement (hook H3). Preemptions inside a lock-protected section beyond the fine tier's single one are not explored.",
+     "7/C10")
+prop("C11", True, "A",
+     'exhaustive fault enumeration: every operation x track shape x class list x history flag x every fault position of the user callbacks, executed on the real Track / TrackStore against a transactional reference model',
+     'The complete finite product (10k cases quick, more shard counts thorough) is executed; on Err the track/store must equal its pre-image with no notification, on Ok the model state with exactly one notification and the stated history rule.',
+     'Trusted: the reference model and the harness callbacks (mutate-then-fail, so a missing rollback is visible). Metric state is read through a muted probe on a clone.',
+     "7/C11")
 prop("C12", False, "A", "", "", NB, "7/C12")
 prop("C13", False, "A", "", "", NB, "7/C13")
 prop("C14", True, "C",
